@@ -2,6 +2,8 @@
 package gen
 
 import (
+	"os"
+
 	"pgregory.net/rapid"
 )
 
@@ -10,9 +12,15 @@ var RunLengths = []int{7, 8, 9, 15, 16, 17, 31, 32, 33, 34, 63, 64, 65, 127, 128
 
 var runUnits = []string{"a", "x", "A", "Z", "0", "9", "f", "-", "_", " ", "é"}
 
+// BigRunLengths join RunLengths in the thorough tier: around the default block size of the stream lexer and of typical
+// read buffers. (Counts around 65536 are covered by dedicated cases, not by fragment strings.)
+var BigRunLengths = []int{4094, 4095, 4096, 4097, 4098, 8191, 8192, 8193}
+
+var thorough = os.Getenv("VERIF_TIER") == "thorough"
+
 // Fragments draws 0..maxN pieces from an alphabet of meaningful fragments, mixed with raw bytes with probability 1/10 and,
 // with probability 1/25, a run: one short unit (a letter, digit, dash, space or a fragment of at most two bytes) repeated
-// 7..1025 times (lengths around powers of two: a name, number or whitespace run just below, at and above the size of a
+// 7..1025 times (in the thorough tier occasionally 4094..8193 times; lengths around powers of two: just below, at and above the size of a
 // fixed scratch buffer). The result stays below 6 KiB.
 func Fragments(t *rapid.T, label string, alphabet []string, maxN int) []byte {
 	n := rapid.IntRange(0, maxN).Draw(t, label+"#")
@@ -26,7 +34,13 @@ func Fragments(t *rapid.T, label string, alphabet []string, maxN int) []byte {
 			if f := rapid.SampledFrom(alphabet).Draw(t, label+"unitfrag"); len(f) > 0 && len(f) <= 2 && rapid.Bool().Draw(t, label+"fragunit") {
 				unit = f
 			}
-			for r := rapid.SampledFrom(RunLengths).Draw(t, label+"run"); r > 0 && len(b) < 6000; r-- {
+			r := rapid.SampledFrom(RunLengths).Draw(t, label+"run")
+			limit := 6000
+			if thorough && rapid.IntRange(0, 39).Draw(t, label+"bigrun") == 0 {
+				r = rapid.SampledFrom(BigRunLengths).Draw(t, label+"bigrunlen")
+				limit = 20000
+			}
+			for ; r > 0 && len(b) < limit; r-- {
 				b = append(b, unit...)
 			}
 		default:
